@@ -19,15 +19,15 @@ CHECKS = {
          "Exhaustive single-point corruption and fault-point enumeration for small blocks, sampled for larger ones; the oracle is the implication effects => (header, count, merkle root all verified) plus order/identity/proof validity of the confirmations.", "3/C04"),
  "C05": ("exploration", "runtime monitoring: offline order / exactly-once / conservation checker over the recorded block-request and processing log of a real NodeManager + BlockManager driven by a scripted, failing block source; bounded-progress check at observed quiescence; race detector; thorough tier adds a gofail failpoint phase (seeded sleeps between critical sections of the block manager/downloader)",
          "Thousands of scenarios over chain length, start height, already-processed sets, mid-round headers, source failures and reorgs with pending requests; the request log must be contiguous ascending best-chain blocks from the right first height, never below start / already processed, each processed once, and complete after the final trigger.", "3/C05"),
- "C06": ("exploration", "runtime monitoring: recorded concurrent histories of the real TxManager checked offline - conservation (exactly-once), never-after-delivery, per-txid linearizability (porcupine) and a one-sided timing inequality for re-requests; end-to-end slice with real nodes sharing the manager; race detector; thorough tier adds a gofail failpoint phase (seeded sleeps between the lock regions of AddTxID/AddTx/GetTxRequests)",
+ "C06": ("exploration", "runtime monitoring: recorded concurrent histories of the real TxManager checked offline - conservation (exactly-once), never-after-delivery, per-txid linearizability (porcupine) and a one-sided timing inequality for re-requests; end-to-end slice with real nodes sharing the manager; a backlogged-processor scenario (hand-over channel full for longer than the manager's own warning timer); race detector; thorough tier adds a gofail failpoint phase (seeded sleeps between the lock regions of AddTxID/AddTx/GetTxRequests)",
          "Thousands of histories with 2-16 concurrent peers over few txids in two timeout regimes; every call recorded at the client boundary; bounded-retry polls at quiescence instead of an unbounded eventually.", "3/C06"),
  "C07": ("exploration", "runtime monitoring: stream applier + set-difference oracle on the subscriber channels after every submission",
          "Announcements of every submission compared with best-chain-after minus best-chain-before for 0-3 subscribers over seeded histories with every reorg kind.", "3/C07"),
  "C08": ("exploration", "runtime monitoring: set-valued reference verdict per submission and full read-API snapshot diff around every refusal",
          "Every submission's answer class must lie in the reference verdict set; every non-accepting answer is bracketed by snapshots of all read APIs (and Save images) that must be equal.", "3/C08"),
- "C09": ("exploration", "runtime monitoring: every accepted header looked up through every by-hash/by-height API after every operation vs reference model",
+ "C09": ("exploration", "runtime monitoring: every accepted header looked up through every by-hash/by-height API after every operation vs reference model; load / grow / prune-again scenario for headers restored from storage",
          "HashHeight/CheckHeader/GetHeader/PreviousHash/Hash/Header/GetHeaders for every accepted header and height after every op, incl. consolidated, pruned and reloaded states.", "3/C09"),
- "C10": ("exploration", "runtime monitoring: snapshot-before == snapshot-after around every Clean, then differential continuation vs reference model",
+ "C10": ("exploration", "runtime monitoring: snapshot-before == snapshot-after around every Clean (histories with forks, invalid marks and hook prune depths), then differential continuation vs reference model; load-grow-prune and mark-then-prune scenarios",
          "Clean at every kind of position, repeated, small prune depths via hook and real 10000 depth via long chains; history continues afterwards.", "3/C10"),
  "C11": ("exploration", "runtime monitoring: original vs loaded vs reference model, twin continuation after Save/Load, legacy-file migration",
          "Multi-generation Save/Load with Clean in between; loaded instance compared with original and model; both receive the same continuation.", "3/C11"),
